@@ -43,7 +43,11 @@ func c38GenOp(r *Rng, dirty bool, nver *int, nups *int) string {
 	case w < 32:
 		return fmt.Sprintf("H,%d,%d,%d,%d", b, k, ver(), condIf(dirty, 4))
 	case w < 44:
-		return fmt.Sprintf("G,%d,%d,%d,%d,%d", b, k, verIf(dirty), r.Intn(6)*r.Intn(2), condIf(dirty, 4))
+		rg := 0
+		if r.Chance(60) {
+			rg = 1 + r.Intn(7) // closed, suffix, open-ended, multi, unsatisfiable, closed+suffix, open+suffix+closed
+		}
+		return fmt.Sprintf("G,%d,%d,%d,%d,%d", b, k, verIf(dirty), rg, condIf(dirty, 4))
 	case w < 50:
 		return fmt.Sprintf("D,%d,%d,%d,%d", b, k, ver(), cond(3))
 	case w < 53:
@@ -131,16 +135,71 @@ func c38GenOp(r *Rng, dirty bool, nver *int, nups *int) string {
 	}
 }
 
+// c38GenWalk: one page-walking listing operation (small page sizes)
+func c38GenWalk(r *Rng, nups int) string {
+	switch r.Intn(8) {
+	case 0, 1, 2:
+		return fmt.Sprintf("VW,%d,%d,%d,%d", 1-r.Intn(2)*r.Intn(2), r.Intn(4)*r.Intn(2), r.Intn(3)*r.Intn(2), 1+r.Intn(3))
+	case 3, 4, 5:
+		return fmt.Sprintf("LW,%d,%d,%d,%d", r.Intn(2), r.Intn(4)*r.Intn(2), r.Intn(3)*r.Intn(2), 1+r.Intn(3))
+	case 6:
+		sl := 0
+		if nups > 0 {
+			sl = r.Intn(nups)
+		}
+		return fmt.Sprintf("MQW,%d,%d", sl, 1+r.Intn(2))
+	default:
+		return fmt.Sprintf("MLW,%d,%d", r.Intn(2), 1+r.Intn(2))
+	}
+}
+
 func (c38) Gen(r *Rng, tier string, n int) []string {
 	out := make([]string, 0, n)
 	for i := 0; i < n; i++ {
 		g := r.Fork()
 		dirty := i%2 == 1
-		steps := 6 + g.Intn(14)
 		nver, nups := 0, 0
 		ops := []string{"H"}
-		for j := 0; j < steps; j++ {
-			ops = append(ops, c38GenOp(g, dirty, &nver, &nups))
+		if i%4 >= 2 {
+			// listing-centred history: populate (several versions and delete markers per key in the
+			// versioned bucket, several keys in the plain one, a multipart upload with parts), then
+			// walk the listings page by page
+			for j, m := 0, 5+g.Intn(8); j < m; j++ {
+				b, k := g.Intn(2), g.Intn(4)
+				if g.Chance(60) {
+					b = 1
+				}
+				if g.Chance(25) {
+					ops = append(ops, fmt.Sprintf("D,%d,%d,0,0", b, k))
+				} else {
+					ops = append(ops, fmt.Sprintf("P,%d,%d,%d,%d,%d,0,%d,0", b, k, g.Intn(6), g.Intn(3), g.Intn(4), g.Intn(4)))
+				}
+			}
+			if g.Chance(50) {
+				for u, m := 0, 1+g.Intn(3); u < m; u++ {
+					ops = append(ops, fmt.Sprintf("MC,%d,%d,%d,0,0,%d", g.Intn(2), g.Intn(4), g.Intn(3), g.Intn(4)))
+					nups++
+				}
+				for j, m := 0, 1+g.Intn(4); j < m; j++ {
+					ops = append(ops, fmt.Sprintf("MP,%d,%d,%d", g.Intn(nups), 1+g.Intn(4), g.Intn(6)))
+				}
+			}
+			for j, m := 0, 2+g.Intn(4); j < m; j++ {
+				if g.Chance(75) {
+					ops = append(ops, c38GenWalk(g, nups))
+				} else {
+					ops = append(ops, c38GenOp(g, dirty, &nver, &nups))
+				}
+			}
+		} else {
+			steps := 6 + g.Intn(14)
+			for j := 0; j < steps; j++ {
+				if g.Chance(6) {
+					ops = append(ops, c38GenWalk(g, nups))
+				} else {
+					ops = append(ops, c38GenOp(g, dirty, &nver, &nups))
+				}
+			}
 		}
 		out = append(out, strings.Join(ops, " "))
 	}
@@ -175,12 +234,29 @@ func c38StripCk(s string) string {
 
 // c38Explain attributes the difference of one projected field of one operation to a known
 // translation defect of the client (finding id) or returns "" (unexplained).
-func c38Explain(f []string, field, cv, dv string) string {
+func c38NormVersions(v string) string {
+	es := strings.Split(v, ",")
+	for i, e := range es {
+		if strings.Contains(e, ":dm=true:") {
+			es[i] = strings.Replace(e, ":etag~:", ":etag=:", 1)
+		}
+	}
+	sort.Strings(es)
+	return strings.Join(es, ",")
+}
+
+func c38Explain(f []string, field string, cm, dm map[string]string) string {
+	cv, dv := cm[field], dm[field]
 	op := f[0]
+	// fields of the page-walking operations are named p<i>.<field>
+	page, base := "", field
+	if i := strings.IndexByte(field, '.'); i > 0 && field[0] == 'p' {
+		page, base = field[:i+1], field[i+1:]
+	}
 	if c38NI(f) {
 		return "C38-not-implemented-ops"
 	}
-	if field == "err" && strings.HasPrefix(cv, "Api(") && dv != "" {
+	if (base == "err") && strings.HasPrefix(cv, "Api(") && dv != "" {
 		return "C38-error-code-not-mapped"
 	}
 	switch op {
@@ -211,37 +287,53 @@ func c38Explain(f []string, field, cv, dv string) string {
 		if field == "objtags" && cv == "\u2205" {
 			return "C38-object-tags-not-populated"
 		}
-	case "L":
-		if field == "objects" && c38StripCk(cv) == c38StripCk(dv) {
+	case "L", "LW":
+		maxKeys := c38N(f, 5)
+		if op == "LW" {
+			maxKeys = c38N(f, 4)
+		}
+		if base == "objects" && c38StripCk(cv) == c38StripCk(dv) {
 			return "C38-list-checksum-type-lost"
 		}
-		if field == "objects" && strings.ReplaceAll(c38StripCk(cv), "class=STANDARD", "class~") == strings.ReplaceAll(c38StripCk(dv), "class=STANDARD", "class~") {
+		if base == "objects" && strings.ReplaceAll(c38StripCk(cv), "class=STANDARD", "class~") == strings.ReplaceAll(c38StripCk(dv), "class=STANDARD", "class~") {
 			return "C38-list-unset-class-reported-standard"
 		}
-		if c38N(f, 3) != 0 && c38N(f, 5) < 1000 {
-			return "C38-list-delimiter-paging"
-		}
-		if c38N(f, 5) == 0 {
+		if maxKeys == 0 {
 			return "C38-list-maxkeys-zero"
 		}
-		if c38N(f, 3) == 2 {
-			return "C38-list-delimiter-percent"
+		// with a delimiter and a page size below the bucket size the HTTP layer pages differently from
+		// the storage (server.listAndFilterObjects: common prefixes of a page that is cut at max-keys
+		// are dropped, and can be lost for the whole walk)
+		if c38N(f, 3) != 0 && maxKeys < 1000 {
+			return "C38-list-delimiter-paging"
 		}
-	case "V":
-		return "C38-listversions-translation"
-	case "ML":
-		if field == "err" && cv == "PANIC" || (cv == "" && dv != "") {
+	case "V", "VW":
+		if (base == "versions" || base == "versionset") && c38NormVersions(cv) != c38NormVersions(dv) &&
+			c38NormVersions(strings.ReplaceAll(cv, "class=STANDARD", "class~")) == c38NormVersions(strings.ReplaceAll(dv, "class=STANDARD", "class~")) {
+			return "C38-list-unset-class-reported-standard"
+		}
+		if base == "versions" && c38NormVersions(cv) == c38NormVersions(dv) {
+			return "C38-listversions-translation"
+		}
+		if base == "versionset" && c38NormVersions(cv) == c38NormVersions(dv) {
+			return "C38-listversions-translation"
+		}
+		if base == "cp" && cv == "[]" && dv != "[]" && dv != "" {
+			return "C38-listversions-translation"
+		}
+	case "ML", "MLW":
+		if cm["err"] == "PANIC" {
 			return "C38-listmultipartuploads-nil-deref"
 		}
 	case "C":
 		if c38N(f, 1) == c38N(f, 3) && c38N(f, 2) == c38N(f, 4) && c38N(f, 5) == 0 {
 			return "C38-self-copy-rejected"
 		}
-	case "MQ":
-		if field == "class" && cv == "=STANDARD" && dv == "~" {
+	case "MQ", "MQW":
+		if base == "class" && cv == "=STANDARD" && dv == "~" {
 			return "C38-list-unset-class-reported-standard"
 		}
-		if field == "next" && cv == "~" {
+		if base == "next" && cv == "~" && cm[page+"trunc"] == "false" {
 			return "C38-listparts-next-marker-lost"
 		}
 	case "X":
@@ -367,21 +459,34 @@ func c38Tags(ops []string) []string {
 		case "L":
 			tags["kf:C38-list-checksum-type-lost"] = true
 			tags["kf:C38-list-unset-class-reported-standard"] = true
-			if c38N(f, 3) != 0 && c38N(f, 5) < 1000 {
-				tags["kf:C38-list-delimiter-paging"] = true
-			}
+
 			if c38N(f, 5) == 0 {
 				tags["kf:C38-list-maxkeys-zero"] = true
 			}
-			if c38N(f, 3) == 2 {
-				tags["kf:C38-list-delimiter-percent"] = true
+
+		case "LW":
+			if c38N(f, 3) != 0 {
+				tags["kf:C38-list-delimiter-paging"] = true
 			}
-		case "V":
+			tags["kf:C38-list-checksum-type-lost"] = true
+			tags["kf:C38-list-unset-class-reported-standard"] = true
+			tags["walk"] = true
+			if c38N(f, 4) == 0 {
+				tags["kf:C38-list-maxkeys-zero"] = true
+			}
+		case "V", "VW":
+			if f[0] == "VW" {
+				tags["walk"] = true
+			}
 			tags["kf:C38-listversions-translation"] = true
-		case "MQ":
+			tags["kf:C38-list-unset-class-reported-standard"] = true
+		case "MQ", "MQW":
+			if f[0] == "MQW" {
+				tags["walk"] = true
+			}
 			tags["kf:C38-listparts-next-marker-lost"] = true
 			tags["kf:C38-list-unset-class-reported-standard"] = true
-		case "ML":
+		case "ML", "MLW":
 			tags["kf:C38-listmultipartuploads-nil-deref"] = true
 		case "X":
 			tags["kf:C38-deleteobjects-marker-flag"] = true
